@@ -4,11 +4,11 @@ from vlib import *
 
 UNIVERSE = {
     "quick": dict(KeyIds="{1, 2}", HashLeaves='{<<"sha256", 1>>}', Afters="{100}", Olders="{10}",
-                  MultiKs="{<<1, <<1, 2>>>>, <<2, <<1, 2>>>>}", MaxThreshN=2,
+                  MultiKs="{<<1, <<1, 2>>>>, <<2, <<1, 2>>>>, <<1, <<3, 4>>>>}", MaxThreshN=2,
                   MaxNodes={"segwitv0": 4, "tap": 4, "legacy": 4, "bare": 3}),
     "thorough": dict(KeyIds="{1, 2, 3}", HashLeaves='{<<"sha256", 1>>, <<"hash160", 1>>}',
                      Afters="{100, 500000100}", Olders="{10, 4194314}",
-                     MultiKs="{<<1, <<1, 2>>>>, <<2, <<1, 2>>>>, <<2, <<1, 2, 3>>>>}", MaxThreshN=3,
+                     MultiKs="{<<1, <<1, 2>>>>, <<2, <<1, 2>>>>, <<2, <<1, 2, 3>>>>, <<1, <<3, 4>>>>}", MaxThreshN=3,
                      MaxNodes={"segwitv0": 5, "tap": 5, "legacy": 5, "bare": 4}),
 }
 CTXS = ["segwitv0", "tap", "legacy", "bare"]
@@ -19,11 +19,11 @@ COMP_STRIDE = {"quick": {"sat": (5, 20), "other": (9, 30)}, "thorough": {"sat": 
 
 
 def gen_cfg_sat(u, ctx, maxnodes, stride, seed):
-    return gen_cfg(u, ctx, maxnodes) + ["  CompStride = %d" % stride[0], "  CompKeep = %d" % stride[1], "  CompSeed = %d" % seed]
+    return gen_cfg(u, ctx, maxnodes, comp=stride, seed=seed)
 
 
-def gen_cfg(u, ctx, maxnodes=None):
-    return ["CONSTANTS", '  Ctx = "%s"' % ctx, "  KeyIds = %s" % u["KeyIds"], "  HashLeaves <- c_HashLeaves",
+def gen_cfg(u, ctx, maxnodes=None, comp=(0, 1), seed=1):
+    return ["CONSTANTS", "  CompStride = %d" % comp[0], "  CompKeep = %d" % comp[1], "  CompSeed = %d" % seed, '  Ctx = "%s"' % ctx, "  KeyIds = %s" % u["KeyIds"], "  HashLeaves <- c_HashLeaves",
             "  Afters = %s" % u["Afters"], "  Olders = %s" % u["Olders"], "  MultiKs <- c_MultiKs",
             "  MaxNodes = %d" % (maxnodes or u["MaxNodes"][ctx]), "  MaxThreshN = %d" % u["MaxThreshN"]]
 
